@@ -10,7 +10,6 @@ import (
 	"net"
 	"net/http"
 	"strconv"
-	"strings"
 	"time"
 
 	"github.com/bluenviron/gortsplib/v5/pkg/base"
@@ -106,18 +105,24 @@ type message struct {
 }
 
 type countReader struct {
-	r io.Reader
-	n int
+	r   io.Reader
+	n   int
+	eof bool // the parser asked for more bytes than there are
 }
 
 func (c *countReader) Read(p []byte) (int, error) {
 	n, err := c.r.Read(p)
 	c.n += n
+	if err != nil {
+		c.eof = true
+	}
 	return n, err
 }
 
-func needMore(err error) bool {
-	return errors.Is(err, io.EOF) || errors.Is(err, io.ErrUnexpectedEOF) || strings.Contains(err.Error(), "EOF")
+// needMore: the parse failed because the data ended (some of gortsplib's parse errors hide the
+// io.EOF they come from, e.g. "value is missing"), so the server is still waiting for bytes.
+func needMore(cr *countReader, err error) bool {
+	return cr.eof || errors.Is(err, io.EOF) || errors.Is(err, io.ErrUnexpectedEOF)
 }
 
 // splitStream runs gortsplib's own reader (pkg/conn, the layer the C04 model is about) over the
@@ -131,7 +136,7 @@ func splitStream(pending []byte) (msgs []message) {
 	for {
 		what, err := c.Read()
 		if err != nil {
-			if needMore(err) {
+			if needMore(cr, err) {
 				return msgs
 			}
 			return append(msgs, message{kind: mBad, n: len(pending)})
@@ -174,7 +179,7 @@ func classifyHTTP(first []byte) (class int, cookie string, n int, wsOK bool) {
 	br := bufio.NewReader(cr)
 	req, err := http.ReadRequest(br)
 	if err != nil {
-		if needMore(err) {
+		if needMore(cr, err) {
 			return hIncomplete, "", 0, false
 		}
 		return hMalformed, "", len(first), false
@@ -212,6 +217,12 @@ type peer struct {
 	pending []byte
 	sent    int  // bytes sent on this connection so far
 	dead    bool // the server closed it (EOF seen) or we closed it
+
+	httpPending bool // the first bytes look like an incomplete HTTP request
+	raw         bool // hand-made WebSocket handshake accepted: the harness stops talking on it
+	isGet       bool // HTTP tunnel GET channel
+	merged      bool // became part of an HTTP tunnel
+	cookie      string
 }
 
 func newPeer(id int, c net.Conn) *peer {
